@@ -30,7 +30,7 @@ NoSeen == [method |-> <<>>, path |-> <<>>, host |-> <<>>, scheme |-> <<>>, field
 
 S0 == [q |-> "idle", req |-> <<>>, hasReq |-> FALSE, blkOpen |-> FALSE, pblk |-> <<>>, pblkES |-> FALSE, pblkSz |-> 0,
        trl |-> <<>>, hasTrl |-> FALSE, peerES |-> FALSE, body |-> 0, flowSent |-> 0,
-       hs |-> 0, hsJudged |-> FALSE, seen |-> NoSeen, he |-> 0, resp |-> NoShape,
+       hs |-> 0, hsJudged |-> FALSE, rawBody |-> FALSE, seen |-> NoSeen, he |-> 0, resp |-> NoShape,
        rh |-> 0, rfields |-> <<>>, rb |-> 0, res |-> 0, r4 |-> FALSE,
        grant |-> 0, sent |-> 0, srvGrant |-> 0, rstByUs |-> FALSE, rstByPeer |-> FALSE, refused |-> FALSE,
        closedAt |-> -1, errSeen |-> FALSE]
@@ -40,7 +40,7 @@ M0(tr) == [cfg |-> tr.cfg, s |-> << >>, hb |-> 0, maxSid |-> 0,
            peerIW |-> 65535, peerMFS |-> 16384,
            grantC |-> 65535, sentC |-> 0, srvGrantC |-> 65535, peerSentC |-> 0,
            goaways |-> <<>>, closed |-> FALSE, connErr |-> FALSE, peerGone |-> FALSE,
-           cur |-> NoFrame, hasCur |-> FALSE, multi |-> FALSE, allowed |-> {}, obs |-> NoObs,
+           cur |-> NoFrame, hasCur |-> FALSE, curAfterClose |-> FALSE, blkBad |-> FALSE, desync |-> FALSE, multi |-> FALSE, allowed |-> {}, obs |-> NoObs,
            mustErr |-> FALSE, disp |-> {}, setSent |-> 0, ackRecv |-> 0, closes |-> 0, settledMode |-> FALSE,
            bad |-> {}]
 
@@ -141,8 +141,10 @@ Transition(mm, f, errOnSid, connErrNow) ==
    SETTINGS decrease); sent / sentC / flowSent / peerSentC are kept at 0 so that `grant - sent` reads as before.
    Cumulative totals would leave TLC's 32-bit integers on long transfers. *)
 (* send: the peer put frame f on the wire.                                   *)
-OnSend(mm0, f) ==
+OnSend(mm0, f0) ==
   LET mm == IF mm0.hasCur THEN [Transition(mm0, mm0.cur, FALSE, FALSE) EXCEPT !.multi = TRUE] ELSE mm0
+      \* a header block is as bad as its worst fragment: the receiver may only find out when the block ends
+      f == IF f0.ty = T_CONT /\ mm.blkBad THEN [f0 EXCEPT !.hbad = TRUE] ELSE f0
       r == St(mm, f.sid)
       q == QOf(mm, f.sid)
       al == Allowed(f, q, Ctx(mm), SCtx(mm, f.sid)) \cup
@@ -152,7 +154,7 @@ OnSend(mm0, f) ==
              ELSE IF f.ty = T_CONT /\ f.sid = mm.hb /\ f.eh THEN 0
              ELSE mm.hb
       \* the peer's flow-control spending (DATA counts with its padding)
-      r1 == IF f.ty = T_DATA THEN [r EXCEPT !.srvGrant = @ - f.len, !.body = @ + f.dlen] ELSE r
+      r1 == IF f.ty = T_DATA THEN [r EXCEPT !.srvGrant = @ - f.len, !.body = @ + f.dlen, !.rawBody = @ \/ ~f.pat] ELSE r
       r2 == IF f.ty = T_HEADERS /\ f.first
             THEN [r1 EXCEPT !.pblk = f.fields, !.pblkES = f.es, !.pblkSz = f.hsz, !.blkOpen = ~f.eh]
             ELSE IF f.ty = T_CONT /\ f.eh THEN [r1 EXCEPT !.blkOpen = FALSE] ELSE r1
@@ -160,6 +162,8 @@ OnSend(mm0, f) ==
       r3 == IF f.ty = T_WU /\ f.sid # 0 /\ f.len = 4 /\ ~Overflows(r2.grant - r2.sent, f.inc)
             THEN [r2 EXCEPT !.grant = @ + f.inc] ELSE r2
       m1 == [mm EXCEPT !.cur = f, !.hasCur = TRUE, !.allowed = al, !.obs = NoObs, !.hb = hb1,
+                       !.blkBad = IF f.ty \in {T_HEADERS, T_CONT} /\ ~f.eh THEN f.hbad ELSE FALSE,
+                       !.curAfterClose = mm.closed,      \* sent into a connection the server had already closed: nothing to judge
                        \* the only permitted reactions to this frame are connection errors
                        !.mustErr = @ \/ (al # {} /\ \A x \in al : x.k = "cerr"),
                        !.srvGrantC = @ - (IF f.ty = T_DATA THEN f.len ELSE 0),
@@ -281,7 +285,9 @@ JudgeDispatch(mm, sid) ==
       wf == r.hasReq /\ WellFormedRequest(r.req, r.body, r.trl)
       underLimits == r.body <= MaxBody(mm) /\ r.pblkSz <= MaxHdr(mm)
       noErr == ~r.errSeen /\ ~r.r4 /\ ~mm.connErr /\ ~mm.closed /\ ~r.refused
-      fresh == r.hs >= 1 /\ ~r.hsJudged      \* judged once, at the first quiescence after the dispatch
+      \* judged once, at the first quiescence after the dispatch; not at all once a raw header block has changed the
+      \* server's dynamic table behind the peer encoder's back (what later blocks decode to is then unknown here)
+      fresh == r.hs >= 1 /\ ~r.hsJudged /\ ~mm.desync
       c1 == FlagIf(mm, fresh /\ ~complete, "C08:dispatched-before-request-complete")
       c2 == FlagIf(c1, fresh /\ complete /\ ~wf, "C20:malformed-request-dispatched")
       c3 == FlagIf(c2, complete /\ wf /\ underLimits /\ noErr /\ r.hs = 0 /\ mm.goaways = <<>>, "C01:well-formed-request-not-dispatched")
@@ -297,7 +303,8 @@ JudgeDispatch(mm, sid) ==
       sentCk == JoinCookies(SelectSeq(ReqFieldsSent(r), LAMBDA f : f[1] = B_cookie))
       seenCk == JoinCookies(SelectSeq(SeenRegular(r), LAMBDA f : f[1] = B_cookie))
       c8 == FlagIf(c7, fresh /\ (~SameFields(seenF, sentF) \/ sentCk # seenCk), "C01:request-fields-differ")
-      c9 == FlagIf(c8, fresh /\ (r.seen.blen # r.body \/ ~r.seen.bodyok), "C01:request-body-differs")
+      \* (octets of a raw DATA frame are not the stream's pattern: only their number is compared)
+      c9 == FlagIf(c8, fresh /\ (r.seen.blen # r.body \/ (~r.seen.bodyok /\ ~r.rawBody)), "C01:request-body-differs")
   IN IF fresh THEN Put(c9, sid, [c9.s[sid] EXCEPT !.hsJudged = TRUE]) ELSE c9
 
 Progress(mm, e) ==
@@ -311,20 +318,24 @@ Progress(mm, e) ==
       live == ~mm.closed /\ ~mm.connErr /\ ~e.ret /\ ~e.settled /\ ~e.slx /\ ~mm.peerGone
       c1 == FlagIf(mm, live /\ stalled # {}, "C06:response-stalled-with-open-windows")
       c2 == FlagIf(c1, live /\ noEnd # {}, "C01:response-never-ended")
-      c3 == FlagIf(c2, live /\ mm.srvGrantC - mm.peerSentC <= 0, "C14:connection-credit-not-returned")
+      c3a == FlagIf(c2, live /\ mm.srvGrantC - mm.peerSentC <= 0, "C14:connection-credit-not-returned")
+      \* in the C09 catalogue every offence is stream-scoped: if it dries up the connection window, every other stream pays
+      c3 == FlagIf(c3a, live /\ mm.cfg.noconnerr /\ mm.srvGrantC - mm.peerSentC <= 0, "C09:stream-scoped-offence-starves-the-connection-window")
       c4 == FlagIf(c3, live /\ starvedS # {}, "C14:stream-credit-not-returned")
       c5 == FlagIf(c4, live /\ mm.ackRecv # mm.setSent, "C18:settings-not-acknowledged-exactly-once")
       c6 == FlagIf(c5, e.running > MaxConc(mm), "C13:more-handlers-than-max-concurrent-streams")
       c7 == FlagIf(c6, e.strms > 2 * MaxConc(mm) + 16, "C13:stream-table-exceeds-bound")
       c8 == FlagIf(c7, e.ring > ClosedCap, "C13:closed-stream-memory-exceeds-bound")
       c9 == FlagIf(c8, e.hdrb > MaxHdr(mm) + 16384 + 9, "C13:buffered-header-bytes-exceed-bound")
-      c10 == FlagIf(c9, e.rdlen > 128 \/ e.wrlen > 128, "C13:queue-exceeds-capacity")
+      c9b == FlagIf(c9, e.strms <= 100 /\ MaxBody(mm) < 16000000 /\ e.bodyb > e.strms * (MaxBody(mm) + 16384),
+                    "C13:buffered-request-body-bytes-exceed-bound")
+      c10 == FlagIf(c9b, e.rdlen > 128 \/ e.wrlen > 128, "C13:queue-exceeds-capacity")
   IN c10
 
 OnQ(mm, e) ==
   LET f == mm.cur
       \* no verdict on the reaction while the peer is not reading (settled): the server cannot show one
-      judged == mm.hasCur /\ ~mm.multi /\ ~mm.connErrBefore /\ ~e.settled
+      judged == mm.hasCur /\ ~mm.multi /\ ~mm.connErrBefore /\ ~e.settled /\ ~mm.curAfterClose
       obs == [rst |-> mm.obs.rst, goaway |-> mm.obs.goaway, closed |-> mm.obs.closed /\ ~mm.peerGone]
       al == mm.allowed
       rOK == ReactionOK(f, obs, al)
@@ -333,8 +344,14 @@ OnQ(mm, e) ==
       connErrNow == mm.obs.goaway # {} \/ (mm.obs.closed /\ ~mm.peerGone)
       c0 == FlagIf(mm, judged /\ ~rOK,
                    "C08:reaction-not-allowed ty=" \o ToString(f.ty) \o " state=" \o QOf(mm, f.sid) \o
-                   " rst=" \o ToString(obs.rst) \o " goaway=" \o ToString(obs.goaway) \o " closed=" \o ToString(obs.closed))
-      c1 == FlagIf(c0, judged /\ obs.goaway # {} /\ ~(\E x \in Tolerate(al) : x.k = "cerr"), "C10:goaway-without-connection-offence")
+                   " rst=" \o ToString(obs.rst) \o " goaway=" \o ToString(obs.goaway) \o " closed=" \o ToString(obs.closed)
+                   \o " allowed=" \o ToString(al))
+      \* ... and when that unwarranted reaction ends the connection, the requests in progress on it are lost
+      inProgress == {sid \in DOMAIN mm.s : mm.s[sid].q \in {"open", "hcr"} /\ mm.s[sid].hasReq /\ ~mm.s[sid].refused /\ ~mm.s[sid].errSeen
+                                            /\ ~mm.s[sid].rstByPeer /\ mm.s[sid].res = 0}
+      c0b == FlagIf(c0, judged /\ ~rOK /\ connErrNow /\ ~(\E x \in Tolerate(al) : x.k = "cerr") /\ inProgress # {},
+                    "C01:requests-in-progress-lost-to-a-connection-teardown-the-peer-did-not-cause")
+      c1 == FlagIf(c0b, judged /\ obs.goaway # {} /\ ~(\E x \in Tolerate(al) : x.k = "cerr"), "C10:goaway-without-connection-offence")
       t1 == IF mm.hasCur THEN Transition(c1, f, errOnSid, connErrNow) ELSE c1
       \* in a burst the resets seen belong to earlier frames: those streams are locally reset too
       t2 == IF mm.multi
@@ -382,6 +399,7 @@ Step(mm, e) ==
     [] e.k = "hend"  -> OnHEnd(mm, e)
     [] e.k = "q"     -> OnQ(mm, e)
     [] e.k = "eof"   -> OnEof(mm)
+    [] e.k = "desync" -> [mm EXCEPT !.desync = TRUE]
     [] e.k = "peerclose" -> [mm EXCEPT !.peerGone = TRUE]
     [] e.k = "end"   -> OnEnd(mm, e)
     [] e.k = "ret"   -> OnRet(mm, e)
